@@ -37,18 +37,18 @@ pub fn all() -> Vec<char> {
     v
 }
 
-/// Values that some *other* parser of the library would rewrite, reject or
-/// canonicalise (package paths, digest names, package names and patterns,
 /// Texts that look like package patterns but do not compile as one (unbalanced or
 /// reversed braces, operators in a wrong order or number, unterminated bracket
 /// sets, stray backslashes), plus a few that do.  A store that keeps pattern-like
-/// values verbatim (packing-list dependencies, summary DEPENDS) is tried with each.
+/// values verbatim (a packing list's dependency commands) is tried with each.
 pub const BROKEN_PATTERNS: [&str; 30] = [
     "foo-{1,2", "foo-1,2}", "}a{", "{", "}", "foo-{", "a{b,c", "a{b{c}", "{a,b}}", "foo-{1,{2,3}",
     "foo>=1>2", "foo<1>2", "foo<1<2", "foo>=1<2<3", "foo>", "foo>=", "<1", ">=<", "foo=>1", "foo>=1<=",
     "foo-[0-9*", "foo-[", "foo-[]", "foo-[!", "foo-***", "foo\\", "\\", "foo-[0-9]*", "foo-{1,2}", "foo>=1<2",
 ];
 
+/// Values that some *other* parser of the library would rewrite, reject or
+/// canonicalise (package paths, digest names, package names and patterns,
 /// dependency strings, numbers, booleans, list/command syntax of the other file
 /// formats, URL-ish and shell-ish text).  A store that must keep values verbatim
 /// is tried with each of them.
